@@ -586,8 +586,9 @@ def run_property(mod, tier, seed, only=None):
     ev["coverage"]["obligations"] = ev["coverage"]["discharged"]
     if n_unsat + n_triv == 0:
         harness_errors.append("no obligation discharged")
-    os.makedirs(os.path.join(ROOT, "evidence"), exist_ok=True)
-    json.dump(ev, open(os.path.join(ROOT, "evidence", f"{prop}.json"), "w"), indent=1, default=str)
+    evdir = os.environ.get("VERIF_EVIDENCE_DIR", os.path.join(ROOT, "evidence"))
+    os.makedirs(evdir, exist_ok=True)
+    json.dump(ev, open(os.path.join(evdir, f"{prop}.json"), "w"), indent=1, default=str)
     print(f"[{prop}] attempted={n_obl} unsat={n_unsat} trivial={n_triv} sat={n_sat} inconclusive={len(inconclusive)} "
           f"paths={paths_total} vacuous={len(vacuous)} queries={queries} solver={solver_s:.1f}s wall={wall:.1f}s", flush=True)
     slowc = sorted(((R.get("wall", 0), cid) for cid, R in results.items()), reverse=True)[:5]
